@@ -117,7 +117,7 @@ fn row(b: usize, tier: Tier, front: &str, input: &[u8], rep: &mut Report) {
                     }
                 }
                 prev = Some((i, c));
-                if ord % 999_983 < 40 && i == 100 {
+                if i == 100 && b % 1777 == 0 {
                     rep.sample(json!({"input_len": i, "buffer_len": b, "front": front, "consumed": c, "advertised_max": m}));
                 }
             }
@@ -217,9 +217,9 @@ pub fn run(tier: Tier) -> Report {
             let mut rep = Report::new();
             for (b, front) in chunk {
                 let _g = crate::engine::watch(|| format!("C19 row b={} front={}", b, front));
-                let before = rep.violations.len();
+                let before = rep.violation_instances();
                 row(*b, tier, front, &input, &mut rep);
-                if rep.violations.len() == before && b % 503 == 0 {
+                if rep.violation_instances() == before && b % 503 == 0 {
                     crate::engine::validate_case(&mut rep, replay, json!({"kind": "pair", "i": 1, "b": b, "front": front, "tier_thorough": tier.thorough()}));
                 }
             }
